@@ -15,7 +15,7 @@ from .. import cover, emmon, gen, ref
 LEVEL = 'exploration'
 JOBS = {'quick': 4, 'thorough': 16}
 REQUIRED_MONITORS = ('result_vs_fresh_map', 'shadow_comparison', 'rejection')
-REQUIRED_CLASSES = ('op:call', 'op:call-repeat', 'op:reject', 'op:mutate-ref', 'op:mutate-target', 'op:mutate-result',
+REQUIRED_CLASSES = ('mutate-construction:renumber', 'op:call', 'op:call-repeat', 'op:reject', 'op:mutate-ref', 'op:mutate-target', 'op:mutate-result',
                     'op:mutate-argument', 'multi-residue', 'shipped-pair', 'reject:other-atom-names', 'reject:non-molecule',
                     'call-after-reject', 'call-after-mutation', 'mutate-argument:partial', 'mutate-argument:rotate-about-own-atom',
                     'reject:same-foreign-object-again')
@@ -54,11 +54,11 @@ def cases(ctx):
 
 def snap(mol):
     return {'pos': np.array(mol.atoms_positions, float), 'names': [a.name for a in mol],
-            'resnames': [a.resname for a in mol], 'resids': list(mol.resids)}
+            'resnames': [a.resname for a in mol], 'resids': list(mol.resids), 'atom_resids': [a.gro_resid for a in mol]}
 
 
 def same_snap(a, b, tol=0.0):
-    if a['names'] != b['names'] or a['resnames'] != b['resnames'] or a['resids'] != b['resids']:
+    if a['names'] != b['names'] or a['resnames'] != b['resnames'] or a['resids'] != b['resids'] or a['atom_resids'] != b['atom_resids']:
         return False
     if a['pos'].shape != b['pos'].shape:
         return False
@@ -96,8 +96,18 @@ def conformation(rng, refm, k):
     arg = refm.copy()
     arg.atoms_positions = conf @ R.T + t
     nres = len(arg.resids)
-    first = int(rng.integers(1, 5000))
-    arg.resids = [first + j for j in range(nres)]
+    style = int(rng.integers(0, 4))
+    if style == 0:
+        pass                                   # numbered exactly like the construction reference
+    elif style == 1 or nres == 1:
+        first = int(rng.integers(1, 5000))
+        arg.resids = [first + j for j in range(nres)]
+    else:
+        # residue numbers of one molecule that are not consecutive: gaps, a restart (wrap of the file format), any order
+        nums = [int(x) for x in rng.choice(np.arange(1, 9000), size=nres, replace=False)]
+        if style == 2:
+            nums = sorted(nums)
+        arg.resids = nums
     return arg
 
 
@@ -206,7 +216,7 @@ def run_case(ctx, case):
             w = {'history': history, 'n_ref': len(refm), 'n_target': len(tgtm), 's': s, 'pair': label}
             if got['names'] != tgt_names or got['resnames'] != tgt_resnames:
                 ctx.violation('result-names-differ-from-target', 'atom or residue names / order / count of the result differ from the target', witness=w)
-            elif got['resids'] != list(arg.resids):
+            elif got['resids'] != list(arg.resids) or got['atom_resids'] != [list(arg.resids)[r] for r, res in enumerate(out.residues) for _ in res]:
                 ctx.violation('result-resids-not-from-argument', f'result resids {got["resids"]} argument {list(arg.resids)}', witness=w)
             elif not same_snap(got, want, tol=1e-12):
                 prev = 'after-rejection' if 'reject' in pending else ('after-mutation' if pending else 'plain')
@@ -245,10 +255,15 @@ def run_case(ctx, case):
             pending.add('reject')
         elif op in ('mutate-ref', 'mutate-target'):
             mol = refm if op == 'mutate-ref' else tgtm
-            how = ['move', 'rotate', 'set', 'move_to'][int(rng.integers(0, 4))]
+            how = ['move', 'rotate', 'set', 'move_to', 'renumber'][int(rng.integers(0, 5))]
             history.append((op, how))
             ctx.hit('op:' + op)
-            if how == 'move':
+            if how == 'renumber':
+                # the residues of a construction molecule get other numbers after the map was built
+                nres_m = len(mol.resids)
+                mol.resids = [int(x) for x in rng.choice(np.arange(1, 9000), size=nres_m, replace=False)]
+                ctx.hit('mutate-construction:renumber')
+            elif how == 'move':
                 mol.move(rng.normal(size=3) * 3)
             elif how == 'rotate':
                 mol.rotate(gen.random_rotation(rng))
